@@ -16,6 +16,9 @@ from ..sx.core import SBool, SInt, SStr, Escape, PathAbort, UnwindExceeded, cur,
 
 MODE = "bv"
 UNWIND = 64
+# In "int" mode values of these (narrow, flag-carrying) types stay bit-vectors, so that |, &, ~ work;
+# they are converted with BV2Int (8 bits: cheap) when they meet arithmetic.
+BV_TYPES_IN_INT_MODE = {"uint8"}
 
 
 def set_mode(m, unwind=None):
@@ -109,15 +112,30 @@ class CInt:
     @staticmethod
     def sym(name, t):
         t = ctype(t)
-        if MODE == "bv":
+        if MODE == "bv" or t.name in BV_TYPES_IN_INT_MODE:
             return CInt(z3.BitVec(name, t.width), t)
         return CInt(z3.Int(name), t)
 
     def domain(self):
         """constraints tying an int-mode variable to its type's range"""
-        if MODE == "int" and not isinstance(self.e, int):
+        if MODE == "int" and isinstance(self.e, z3.ArithRef):
             return [self.e >= self.t.lo, self.e <= self.t.hi]
         return []
+
+    @property
+    def is_bv(self):
+        return isinstance(self.e, z3.BitVecRef)
+
+    def to_int_rep(self):
+        """same value, mathematical-integer representation (hybrid int mode)"""
+        if isinstance(self.e, z3.BitVecRef):
+            return CInt(z3.BV2Int(self.e, self.t.signed), self.t)
+        return self
+
+    def to_bv_rep(self):
+        if isinstance(self.e, z3.ArithRef):
+            raise Escape("bit operation on a mathematical-integer value (int mode)")
+        return self
 
     @property
     def concrete(self):
@@ -134,7 +152,12 @@ class CInt:
             return CInt(_ite(nz.e, _val(1, t), _val(0, t)), t)
         if isinstance(self.e, int):
             return CInt(_wrap_py(self.e, t), t)
-        if MODE == "bv":
+        if MODE == "int" and isinstance(self.e, z3.ArithRef) and t.name in BV_TYPES_IN_INT_MODE:
+            # Int -> flag type: only exact small values are expected here
+            if _b(z3.And(self.e >= t.lo, self.e <= t.hi)):
+                return CInt(z3.Int2BV(self.e, t.width), t)
+            raise Escape("wrapping store of a mathematical integer into a bit-vector typed variable")
+        if MODE == "bv" or isinstance(self.e, z3.BitVecRef):
             w0, w1 = self.t.width, t.width
             if w1 == w0:
                 return CInt(self.e, t)
@@ -157,7 +180,7 @@ class CInt:
         if isinstance(self.e, int):
             return self.e
         if MODE == "int":
-            return self.e
+            return self.e if isinstance(self.e, z3.ArithRef) else z3.BV2Int(self.e, self.t.signed)
         raise Escape("BV value used as mathematical integer (use widened bit-vector assertions)")
 
     def wide(self, w=64):
@@ -274,6 +297,16 @@ class CInt:
         if isinstance(a.e, int) and isinstance(b.e, int):
             return {"lt": a.e < b.e, "le": a.e <= b.e, "gt": a.e > b.e, "ge": a.e >= b.e,
                     "eq": a.e == b.e, "ne": a.e != b.e}[name]
+        if MODE == "int":
+            if a.is_bv and (b.is_bv or b.concrete) or b.is_bv and a.concrete:
+                x, y = _bvterm(a), _bvterm(b)
+                if not t.signed:
+                    r = {"lt": z3.ULT, "le": z3.ULE, "gt": z3.UGT, "ge": z3.UGE,
+                         "eq": lambda p, q: p == q, "ne": lambda p, q: p != q}[name](x, y)
+                else:
+                    r = {"lt": x < y, "le": x <= y, "gt": x > y, "ge": x >= y, "eq": x == y, "ne": x != y}[name]
+                return mkbool(r)
+            a, b = a.to_int_rep(), b.to_int_rep()
         x, y = _term(a), _term(b)
         if MODE == "bv" and not t.signed:
             r = {"lt": z3.ULT, "le": z3.ULE, "gt": z3.UGT, "ge": z3.UGE,
@@ -327,6 +360,19 @@ def _val(v, t):
     return z3.IntVal(v)
 
 
+def _same_rep(a, b):
+    """two z3 terms / ints of CInt a, b brought to one representation (for ite)"""
+    if isinstance(a.e, z3.BitVecRef) or isinstance(b.e, z3.BitVecRef):
+        if isinstance(a.e, z3.ArithRef) or isinstance(b.e, z3.ArithRef):
+            a, b = a.to_int_rep(), b.to_int_rep()
+            return _term(a), _term(b)
+        return _bvterm(a), _bvterm(b)
+    if MODE == "int" and isinstance(a.e, int) and isinstance(b.e, int):
+        # two constants (typically flag values): keep them bit-vectors so that |, &, ~ remain available
+        return _bvterm(a), _bvterm(b)
+    return _term(a), _term(b)
+
+
 def _term(x):
     return _val(x.e, x.t) if isinstance(x.e, int) else x.e
 
@@ -338,7 +384,22 @@ def _ite(c, a, b):
 CDIVISION = False
 
 
+BITOPS = ("and", "or", "xor", "shl", "shr")
+
+
+def _bvterm(x):
+    return z3.BitVecVal(x.e, x.t.width) if isinstance(x.e, int) else x.e
+
+
 def _binop(name, a, b, t):
+    if MODE == "int" and not (isinstance(a.e, int) and isinstance(b.e, int)):
+        if name in BITOPS:
+            a, b = a.to_bv_rep(), b.to_bv_rep()
+            x, y = _bvterm(a), _bvterm(b)
+            r = {"and": lambda: x & y, "or": lambda: x | y, "xor": lambda: x ^ y, "shl": lambda: x << y,
+                 "shr": lambda: (x >> y) if t.signed else z3.LShR(x, y)}[name]()
+            return CInt(z3.simplify(r), t)
+        a, b = a.to_int_rep(), b.to_int_rep()
     if isinstance(a.e, int) and isinstance(b.e, int):
         x, y = a.e, b.e
         if name in ("floordiv", "mod"):
@@ -601,7 +662,8 @@ def _merge(cond, a, b):
     if isinstance(a, CInt) or isinstance(b, CInt):
         a, b = CInt.lift(a), CInt.lift(b)
         t = a.t
-        return CInt(_ite(c, _term(a), _term(b.conv(t))), t)
+        x, y = _same_rep(a, b.conv(t))
+        return CInt(_ite(c, x, y), t)
     if isinstance(a, (SInt, int)) and isinstance(b, (SInt, int)) and not isinstance(a, bool):
         return SInt.mk(z3.If(c, SInt.of(a), SInt.of(b)))
     if a is b:
